@@ -1706,6 +1706,9 @@ impl proto::Peer for Peer {
                     why,
                 )
             })?);
+        } else if is_connect && !has_protocol {
+            // The target of a CONNECT request is its :authority.
+            malformed!("malformed headers: missing authority in CONNECT");
         }
 
         // A :scheme is required, except CONNECT.
@@ -1746,8 +1749,8 @@ impl proto::Peer for Peer {
             parts.path_and_query = Some(maybe_path.or_else(|why| {
                 malformed!("malformed headers: malformed path ({:?}): {}", path, why,)
             })?);
-        } else if is_connect && has_protocol {
-            malformed!("malformed headers: missing path in extended CONNECT");
+        } else if !is_connect || has_protocol {
+            malformed!("malformed headers: missing path");
         }
 
         b = b.uri(parts);
